@@ -18,4 +18,4 @@ ASSUMPTIONS = ["README semantics of the option values as restated in r_opt.py",
 
 
 def run(ctx):
-    return [r_opt.rule_quote(ctx, "C11"), r_opt.rule_space(ctx, "C11"), r_opt.rule_call_parens(ctx, "C11"), r_opt.rule_lookahead(ctx, "C11")]
+    return [r_opt.rule_quote(ctx, "C11"), r_opt.rule_space(ctx, "C11"), r_opt.rule_call_parens(ctx, "C11"), r_opt.rule_lookahead(ctx, "C11"), r_opt.rule_measurement_only(ctx, "C11")]
